@@ -637,11 +637,11 @@ def _coq_exn(c):
     return _EXN.get(c, "OtherError")
 
 
-def _coq_outcome(o, same=None):
+def _coq_outcome(o):
     if o[0] == "raise":
         return "(ORaise %s)" % _coq_exn(o[1])
     if o[0] in ("ok-same", "ok-unchanged"):
-        return same
+        return "OSame"
     cells = []
     for c in o[1]:
         if c[0] == "dt":
@@ -684,39 +684,40 @@ def to_coq(case, obs):
     row_term = "(%s : list mval)" % L.lst(_coq_val(t) for t in case["row"])
     ts = L.N(case["ts"])
     if obs["enc"][0] != "ok":
-        return ("row", "((%s, %s, ERaise %s, ORaise OtherError, []) : row_case)" % (ts, row_term, _coq_exn(obs["enc"][1])))
+        return ("row", "((%s, %s, ERaise %s, OSame, []) : row_case)" % (ts, row_term, _coq_exn(obs["enc"][1])))
     rec = _unspec(obs["enc"][1])
     lit = _coq_bytes(rec)
     enc = "EBytes %s" % lit if lit is not None else "EHash %s %s" % (L.N(len(rec)), L.N(_digest(rec)))
-    if any(_is_dt_form(t) for t in case["row"]):
-        same = "(OOk %s)" % L.lst("ODate" if _is_dt_form(t) else "(OVal %s)" % _coq_val(t) for t in case["row"])
-        if obs["dec"][0] == "raise" and obs["dec"][1] != "DataError" and any(
-                _is_dt_form(t) and t[1][1][0] in ("i", "f", "b") for t in case["row"]):
-            return None      # datetime.fromtimestamp range errors on a numeric argument are not modelled
-    else:
-        same = "(OOk (map OVal %s))" % row_term
-    dec = _coq_outcome(obs["dec"], same)
+    dt_rows = [t for t in case["row"] if _is_dt_form(t)]
+    if dt_rows and obs["dec"][0] == "raise" and obs["dec"][1] != "DataError" and any(t[1][1][0] in ("i", "f", "b") for t in dt_rows):
+        return None      # datetime.fromtimestamp range errors on a numeric argument are not modelled
+    dec = _coq_outcome(obs["dec"])
     if dec is None:
         return None
     muts = []
     tp = obs["tears"]
     if tp["points"] == "all" and not tp["not_rejected"]:
-        muts.append("(TearAll, ORaise DataError)")
+        muts.append("(TearAll, OSame)")
     else:
         bad = {k: o for k, o in tp["not_rejected"]}
         pts = range(obs["len"]) if tp["points"] == "all" else tp["points"]
         for k in pts:
-            o = _coq_outcome(bad.get(k, DE), dec)
+            o = _coq_outcome(bad.get(k, DE))
             if o is not None:
                 muts.append("(Tear %s, %s)" % (L.N(k), o))
     for s, o in zip(case.get("suffixes", []), obs["suffixes"]):
-        oc = _coq_outcome(o, dec)
+        oc = _coq_outcome(o)
         if oc is not None:
             muts.append("(Extend %s, %s)" % (_coq_bytes(_unspec(s)), oc))
-    for i, b, o in obs["flips"]:
-        oc = _coq_outcome(o, dec)
-        if oc is not None:
-            muts.append("(Flip %s %s, %s)" % (L.N(i), L.N(b), oc))
+    fl = obs["flips"]
+    if len(fl) == 48 and [x[:2] for x in fl] == [[i, b] for i in range(6) for b in range(8)] and all(o == DE or o == ["ok-unchanged"] for _, _, o in fl):
+        mask = sum(1 << (8 * i + b) for i, b, o in fl if o == DE)
+        muts.append("(FlipMask %s, OSame)" % L.N(mask))
+    else:
+        for i, b, o in fl:
+            oc = _coq_outcome(o)
+            if oc is not None:
+                muts.append("(Flip %s %s, %s)" % (L.N(i), L.N(b), oc))
     return ("row", "((%s, %s, %s, %s, %s) : row_case)" % (ts, row_term, enc, dec, L.lst(muts)))
 
 
